@@ -127,12 +127,9 @@ func NewUUID() UUID {
 	if w == nil {
 		panic("simrt.NewUUID outside a world")
 	}
-	gn := ""
-	if g := CurG(); g != nil && g.Node != nil {
-		gn = g.Node.Name
-	}
-	c := w.Counter("uuid:" + gn)
-	a, b := w.Rand(fmt.Sprintf("uuid:%s:%d:a", gn, c)), w.Rand(fmt.Sprintf("uuid:%s:%d:b", gn, c))
+	// keyed by the drawing goroutine's own sequence (see GSeq), not by a per-node counter
+	id := w.GSeq(CurG(), "uuid")
+	a, b := w.Rand("uuid:"+id+":a"), w.Rand("uuid:"+id+":b")
 	for i := 0; i < 8; i++ {
 		u[i], u[8+i] = byte(a>>(8*i)), byte(b>>(8*i))
 	}
